@@ -14,13 +14,19 @@
   Part C — BGV layout: with the model's `permuteMatrix` indexing and the model's NTT over `Z_t`,
     `decodeRingTU` after `rowAut g t` is `slotAut .bgv` of `decodeRingTU`, for `g = GaloisElement(k)`
     (rotation of both rows by `k`) and `g = 2N-1` (row swap).
+  Part D — `ring.AutomorphismNTT` (index table `AutomorphismNTTIndex`, applied in the NTT domain) is
+    `NTT ∘ rowAut g ∘ NTT⁻¹` (`nttStd_rowAut`, `automorphismNTT_spec`).
+  Part E — ciphertext level in the evaluation domain: C04's `automorphism_phase` instantiated with the
+    slot permutation (`automorphism_slots`, `rotate_ciphertext_slots`).
 -/
 import Lattigo.Model.RPoly
 import Lattigo.Model.EncoderT
 import Lattigo.Model.InnerSum
 import Lattigo.Proofs.GaloisDlog
+import Lattigo.Proofs.GaloisNTTIndex
 import Lattigo.Proofs.SlotLawful
 import Lattigo.Proofs.NTTTables
+import Lattigo.Proofs.KeySwitch
 import Mathlib.Algebra.BigOperators.Ring.Finset
 import Mathlib.Algebra.BigOperators.Intervals
 
@@ -413,12 +419,12 @@ theorem rowAut_length (g q : ℕ) (x : List ℕ) : (RPoly.rowAut g q x).length =
     | cons a l ih => intro init; rw [List.foldl_cons, ih, Array.size_setIfInBounds]
   rw [key, Array.size_replicate]
 
-theorem powers5_eq (m : ℕ) : ∀ (k q : ℕ), q < m →
+theorem powers5_closed (m : ℕ) : ∀ (k q : ℕ), q < m →
     powers5 m k q = (List.range k).map (fun j => q * 5 ^ j % m)
   | 0, _, _ => rfl
   | k + 1, q, hq => by
     have hm : 0 < m := by omega
-    rw [powers5, powers5_eq m k (q * 5 % m) (Nat.mod_lt _ hm), List.range_succ_eq_map, List.map_cons,
+    rw [powers5, powers5_closed m k (q * 5 % m) (Nat.mod_lt _ hm), List.range_succ_eq_map, List.map_cons,
       List.map_map]
     congr 1
     · simp [Nat.mod_eq_of_lt hq]
@@ -429,7 +435,7 @@ theorem powers5_eq (m : ℕ) : ∀ (k q : ℕ), q < m →
 
 /-- `permuteMatrix` in closed form: entry `j < N/2` is `brv((5^j mod 2N) >> 1)`, entry `j + N/2` is
     `N - 1 -` that. -/
-theorem permuteMatrix_eq (e : ℕ) :
+theorem permuteMatrix_closed (e : ℕ) :
     permuteMatrix (e + 2)
       = (List.range (2 ^ (e + 1))).map (fun j => NTT.bitRev (5 ^ j % 2 ^ (e + 3) / 2) (e + 2))
         ++ (List.range (2 ^ (e + 1))).map
@@ -438,7 +444,7 @@ theorem permuteMatrix_eq (e : ℕ) :
   have h1 : 2 ^ (e + 2) / 2 = 2 ^ (e + 1) := by rw [pow_succ]; simp
   have h2 : 2 * 2 ^ (e + 2) = 2 ^ (e + 3) := by ring
   simp only [h1, h2]
-  rw [powers5_eq _ _ 1 (Nat.one_lt_two_pow (by omega))]
+  rw [powers5_closed _ _ 1 (Nat.one_lt_two_pow (by omega))]
   simp only [List.map_map, one_mul]
   rfl
 
@@ -548,10 +554,10 @@ theorem decode_eq (e p g₀ scale : ℕ) (pT : List ℕ) :
       = (List.range (2 ^ (e + 1))).map (dec0 e p g₀ scale pT)
         ++ (List.range (2 ^ (e + 1))).map (dec1 e p g₀ scale pT) := by
   have hlen : (permuteMatrix (e + 2)).length = 2 ^ (e + 2) := by
-    rw [permuteMatrix_eq]; simp; ring
+    rw [permuteMatrix_closed]; simp; ring
   unfold decodeRingTU
   simp only
-  rw [List.take_of_length_le (le_of_eq hlen), permuteMatrix_eq, List.map_append, List.map_map, List.map_map]
+  rw [List.take_of_length_le (le_of_eq hlen), permuteMatrix_closed, List.map_append, List.map_map, List.map_map]
   rfl
 
 theorem five_mod_odd (e j : ℕ) : 5 ^ j % 2 ^ (e + 3) % 2 = 1 := by
@@ -762,5 +768,192 @@ theorem conjugate_decode (h : PlainOK e p g₀) (he : e + 3 ≤ 64) (scale : ℕ
   rw [decode_rowAut_orderTwo h he scale pT hlen]; rfl
 
 end BGV
+
+/-! ## Part D: the NTT-domain automorphism (`ring.AutomorphismNTT`) is `NTT ∘ σ_g ∘ NTT⁻¹` -/
+
+section AutNTT
+open Lattigo.NTT
+
+/-- the two models of `utils.BitReverse64` agree. -/
+theorem bitRev_eq : ∀ (b x : ℕ), Model.Galois.bitRev x b = NTT.bitRev x b
+  | 0, x => by simp [Model.Galois.bitRev, Model.Galois.bitRevAux, NTT.bitRev_zero_len]
+  | b + 1, x => by
+    rw [Lattigo.Proofs.Galois.bitRev_succ, NTT.bitRev_succ_first, bitRev_eq b (x / 2)]; ring
+
+/-- entry `idx` of `nttStd` (generated tables, any NTT-friendly prime `q`) is the value of the
+    polynomial at `ψ^(2·brv(idx)+1)`. -/
+theorem ntt_entry_gen (K q g₀ : ℕ) (hK : 1 ≤ K) (hq : q.Prime) (h8 : 8 * q ≤ W)
+    (hdiv : 2 ^ (K + 1) ∣ q - 1) (hg₀ : g₀ ^ ((q - 1) / 2) % q = q - 1)
+    (a : List ℕ) (hlen : a.length = 2 ^ K) (ha : ∀ x ∈ a, x < q) (idx : ℕ) (hidx : idx < 2 ^ K) :
+    (((nttStd (mkTables (2 ^ K) q (2 ^ (K + 1)) g₀) a).getD idx 0 : ℕ) : ZMod q)
+      = evalP (a.map (Nat.cast : ℕ → ZMod q))
+          ((((g₀ : ℕ) : ZMod q) ^ ((q - 1) / 2 ^ (K + 1))) ^ (2 * NTT.bitRev idx K + 1)) := by
+  have hev := nttStd_mkTables_eval K q g₀ hK hq h8 hdiv hg₀ a hlen ha
+  rw [← getD_map_cast, hev]
+  simp only [List.getD_eq_getElem?_getD, List.getElem?_map, List.getElem?_range hidx, Option.map_some,
+    Option.getD_some]
+  unfold evalP
+  rw [List.length_map, hlen]
+  apply Finset.sum_congr rfl
+  intro i _
+  rw [getD_map_cast]
+  rfl
+
+/-- **`AutomorphismNTT`**: `ring.AutomorphismNTTWithIndex` computes `out[i] = in[index[i]]` with the
+    table `index = AutomorphismNTTIndex(N, 2N, g)` (the model's `nttIndexAt`).  Applied to the NTT of
+    `a` this *is* the NTT of `σ_g a = rowAut g q a`: the index permutation of the evaluation domain is
+    the automorphism `X ↦ X^g`.  All `N = 2^K ≤ 2^63`, every NTT-friendly prime `q`, every odd `g`. -/
+theorem nttStd_rowAut (K q g₀ : ℕ) (hK : 1 ≤ K) (hK64 : K + 1 ≤ 64) (hq : q.Prime) (h8 : 8 * q ≤ W)
+    (hdiv : 2 ^ (K + 1) ∣ q - 1) (hg₀ : g₀ ^ ((q - 1) / 2) % q = q - 1)
+    (a : List ℕ) (hlen : a.length = 2 ^ K) (ha : ∀ x ∈ a, x < q) (g : ℕ) (hg : g % 2 = 1) :
+    nttStd (mkTables (2 ^ K) q (2 ^ (K + 1)) g₀) (RPoly.rowAut g q a)
+      = (List.range (2 ^ K)).map (fun i =>
+          (nttStd (mkTables (2 ^ K) q (2 ^ (K + 1)) g₀) a).getD (nttIndexAt (2 ^ (K + 1)) g i) 0) := by
+  have : Fact q.Prime := ⟨hq⟩
+  have hqpos := hq.pos
+  have hT := (mkTables_all K q g₀ hq h8 hdiv hg₀).1
+  have hψ := (mkTables_all K q g₀ hq h8 hdiv hg₀).2.2.1
+  have : Fact (mkTables (2 ^ K) q (2 ^ (K + 1)) g₀).q.Prime := ⟨hq⟩
+  set ψ := ((g₀ : ℕ) : ZMod q) ^ ((q - 1) / 2 ^ (K + 1)) with hψdef
+  have hM : 2 ^ (K + 1) = 2 * 2 ^ K := by ring
+  have hψ2 : ψ ^ 2 ^ (K + 1) = 1 := by rw [hM]; exact sq_of_neg_one hψ
+  -- entries of the rotated row are reduced
+  have hcop : Nat.Coprime g (2 * a.length) := by
+    rw [hlen, ← hM]
+    apply Nat.Coprime.pow_right
+    rw [Nat.coprime_comm, Nat.Prime.coprime_iff_not_dvd Nat.prime_two]
+    omega
+  have hrc := rowAut_cast (R := ZMod q) q hqpos (ZMod.natCast_self q) g a hcop
+  have hrl : (RPoly.rowAut g q a).length = 2 ^ K := by rw [rowAut_length, hlen]
+  -- both sides are lists of residues `< q`: compare in `ZMod q`
+  have hlt_of : ∀ (b : List ℕ), (∀ x ∈ b, x < q) → ∀ y ∈ nttStd (mkTables (2 ^ K) q (2 ^ (K + 1)) g₀) b, y < q :=
+    fun b hb => (nttStd_cast hT b hb).2
+  -- entries of `rowAut` are `< q`
+  have hra : ∀ x ∈ RPoly.rowAut g q a, x < q := by
+    intro x hx
+    obtain ⟨e, he, rfl⟩ := List.getElem_of_mem hx
+    rw [hrl] at he
+    obtain ⟨i₀, hi₀, hpos⟩ := autPos_surj (N := a.length) (by rw [hlen]; positivity) g hcop e (by rw [hlen]; exact he)
+    have hsp := foldl_set_spec (autPos a.length g) (autVal a.length g q a) (Array.replicate a.length 0) a.length
+      (autPos_inj g hcop) (fun i _ => by rw [Array.size_replicate]; exact autPos_lt (by rw [hlen]; positivity) g i)
+    have hL : (RPoly.rowAut g q a)[e]? = some (autVal a.length g q a i₀) := by
+      rw [rowAut_eq, Array.getElem?_toList, ← hpos]
+      exact hsp.2 i₀ hi₀
+    have hval : (RPoly.rowAut g q a)[e] = autVal a.length g q a i₀ := by
+      have := List.getElem?_eq_getElem (l := RPoly.rowAut g q a) (i := e) (by rw [hrl]; exact he)
+      rw [hL] at this; exact (Option.some.inj this).symm
+    rw [hval]
+    unfold autVal
+    split
+    · have : a[i₀]! = a[i₀] := by simp [hi₀]
+      rw [this]; exact ha _ (List.getElem_mem hi₀)
+    · exact Nat.mod_lt _ hqpos
+  apply map_cast_inj (q := q) _ _ (hlt_of _ hra)
+  · intro y hy
+    obtain ⟨i, _, rfl⟩ := List.mem_map.mp hy
+    rw [List.getD_eq_getElem?_getD]
+    by_cases hi : nttIndexAt (2 ^ (K + 1)) g i < (nttStd (mkTables (2 ^ K) q (2 ^ (K + 1)) g₀) a).length
+    · rw [List.getElem?_eq_getElem hi]; exact hlt_of a ha _ (List.getElem_mem hi)
+    · rw [List.getElem?_eq_none (Nat.le_of_not_lt hi)]; exact hqpos
+  -- pointwise
+  rw [nttStd_mkTables_eval K q g₀ hK hq h8 hdiv hg₀ _ hrl hra, List.map_map]
+  apply List.map_congr_left
+  intro i hi
+  have hi' := List.mem_range.mp hi
+  simp only [Function.comp]
+  -- right-hand side: the entry of `NTT a` at `index[i]`
+  have hidx := nttIndexAt_eq (K + 1) (by omega) hK64 g i hg
+  simp only [Nat.add_sub_cancel, bitRev_eq] at hidx
+  set P := g * (2 * NTT.bitRev i K + 1) % 2 ^ (K + 1) with hP
+  have hPlt : P < 2 ^ (K + 1) := Nat.mod_lt _ (by positivity)
+  have hPodd : P % 2 = 1 := by
+    have hd : 2 ∣ 2 ^ (K + 1) := dvd_pow_self 2 (by omega)
+    rw [hP, Nat.mod_mod_of_dvd _ hd, Nat.mul_mod, hg]; simp [Nat.add_mod]
+  have hhalf : (P - 1) / 2 < 2 ^ K := by omega
+  rw [hidx, ntt_entry_gen K q g₀ hK hq h8 hdiv hg₀ a hlen ha _ (NTT.bitRev_lt K _),
+    NTT.bitRev_invol K _ hhalf]
+  have h2 : 2 * ((P - 1) / 2) + 1 = P := by omega
+  rw [h2, hP, pow_mod_of_pow_eq_one hψ2]
+  -- left-hand side: evaluate `σ_g a`
+  have hx : (ψ ^ (2 * NTT.bitRev i K + 1)) ^ 2 ^ K = -1 := by
+    rw [← pow_mul, mul_comm, pow_mul, hψ, neg_one_pow_odd (by omega)]
+  have hL : (∑ j ∈ Finset.range (2 ^ K), (((RPoly.rowAut g q a).getD j 0 : ℕ) : ZMod q)
+        * (ψ ^ (2 * NTT.bitRev i K + 1)) ^ j)
+      = evalP ((RPoly.rowAut g q a).map (Nat.cast : ℕ → ZMod q)) (ψ ^ (2 * NTT.bitRev i K + 1)) := by
+    unfold evalP
+    rw [List.length_map, hrl]
+    apply Finset.sum_congr rfl
+    intro j _
+    rw [getD_map_cast]
+  rw [hL, hrc, hlen, evalP_sigma g _ (by simp [hlen]) _ hx, ← pow_mul, mul_comm g]
+
+/-- the same with the table returned by the model of `ring.AutomorphismNTTIndex`. -/
+theorem automorphismNTT_spec (K q g₀ : ℕ) (hK : 1 ≤ K) (hK64 : K + 1 ≤ 64) (hq : q.Prime) (h8 : 8 * q ≤ W)
+    (hdiv : 2 ^ (K + 1) ∣ q - 1) (hg₀ : g₀ ^ ((q - 1) / 2) % q = q - 1)
+    (a : List ℕ) (hlen : a.length = 2 ^ K) (ha : ∀ x ∈ a, x < q) (g : ℕ) (hg : g % 2 = 1) :
+    ∃ idx, automorphismNTTIndex (2 ^ K) (2 ^ (K + 1)) g = some idx ∧
+      nttStd (mkTables (2 ^ K) q (2 ^ (K + 1)) g₀) (RPoly.rowAut g q a)
+        = idx.map (fun j => (nttStd (mkTables (2 ^ K) q (2 ^ (K + 1)) g₀) a).getD j 0) := by
+  refine ⟨(List.range (2 ^ K)).map (nttIndexAt (2 ^ (K + 1)) g), ?_, ?_⟩
+  · unfold automorphismNTTIndex
+    rw [if_neg (by rw [Nat.and_two_pow_sub_one_eq_mod]; simp),
+      if_neg (by rw [Nat.and_two_pow_sub_one_eq_mod]; simp)]
+  · rw [nttStd_rowAut K q g₀ hK hK64 hq h8 hdiv hg₀ a hlen ha g hg, List.map_map]
+    rfl
+
+end AutNTT
+
+/-! ## Part E: ciphertext level, evaluation domain
+
+  Ciphertext components live in the NTT (= slot) domain, where the automorphism is the index
+  permutation of Part D.  In the ring of slot vectors `(ZMod 2N)ˣ → R` (pointwise operations)
+  `σ_g f = f(· g)` is a ring endomorphism, so C04's `automorphism_phase` applies: under the
+  key-switch hypothesis (the gadget product with the Galois key of `g` re-encrypts `c1` from
+  `σ_g⁻¹(s)` to … with noise `ν` — C04/C08), the phase of `Automorphism(ct, g)` is the phase of `ct`
+  with slots moved by `g`, plus the moved noise. -/
+
+section Ciphertext
+open Lattigo.KS
+
+variable {R : Type} [CommRing R] {M : ℕ}
+
+/-- `σ_g` on slot vectors: `f ↦ f(· g)`, a ring endomorphism. -/
+def slotPerm (g : (ZMod M)ˣ) : ((ZMod M)ˣ → R) →+* ((ZMod M)ˣ → R) :=
+  RingHom.pi (fun u => Pi.evalRingHom (fun _ => R) (u * g))
+
+@[simp] theorem slotPerm_apply (g : (ZMod M)ˣ) (f : (ZMod M)ˣ → R) (u : (ZMod M)ˣ) :
+    slotPerm g f u = f (u * g) := rfl
+
+/-- **ciphertext-level `rotate_slots`, up to the key-switch noise.**  `ks` = the (ModDown-ed) gadget
+    product of `c1` with the Galois key of `g`; hypothesis `hks` is what key generation + gadget
+    product guarantee (C04 `automorphism_phase`'s hypothesis).  Then slot `u` of the phase of
+    `Automorphism(ct, g)` is slot `u·g` of the phase of `ct`, plus slot `u·g` of the noise. -/
+theorem automorphism_slots (g : (ZMod M)ˣ) (ks ct : ((ZMod M)ˣ → R) × ((ZMod M)ˣ → R))
+    (s ν : (ZMod M)ˣ → R) (hks : phase ks (slotPerm g⁻¹ s) = ct.2 * s + ν) (u : (ZMod M)ˣ) :
+    phase (automorphism (slotPerm g) ks ct) s u = phase ct s (u * g) + ν (u * g) := by
+  have hinv : slotPerm g (slotPerm g⁻¹ s) = s := by
+    funext v; simp
+  have := automorphism_phase (slotPerm g) (slotPerm g⁻¹) ks ct s ν hinv hks
+  rw [this]; rfl
+
+/-- for `g = GaloisElement(k)`: the decrypted slot `j` of either row of `Rotate(ct, k)` is the
+    decrypted slot `(j + k) mod N/2` of the same row of `ct`, plus the key-switch noise there. -/
+theorem rotate_ciphertext_slots {t : ℕ} (k : ℤ) (ks ct : ((ZMod (2 ^ (t + 3)))ˣ → R) × ((ZMod (2 ^ (t + 3)))ˣ → R))
+    (s ν : (ZMod (2 ^ (t + 3)))ˣ → R)
+    (hks : phase ks (slotPerm (five (t + 3) ^ k)⁻¹ s) = ct.2 * s + ν) (j : ℕ) (sgn : Bool) :
+    let pt := fun (i : ℕ) => if sgn then -(five (t + 3) ^ i) else five (t + 3) ^ i
+    phase (automorphism (slotPerm (five (t + 3) ^ k)) ks ct) s (pt j)
+      = phase ct s (pt (((j : ℤ) + k) % ((2 ^ (t + 1) : ℕ) : ℤ)).toNat)
+        + ν (pt (((j : ℤ) + k) % ((2 ^ (t + 1) : ℕ) : ℤ)).toNat) := by
+  intro pt
+  have h := automorphism_slots (five (t + 3) ^ k) ks ct s ν hks (pt j)
+  have hp : pt j * five (t + 3) ^ k = pt (((j : ℤ) + k) % ((2 ^ (t + 1) : ℕ) : ℤ)).toNat := by
+    simp only [pt]
+    cases sgn
+    · simp only [Bool.false_eq_true, if_false]; exact five_pow_mul_zpow t j k
+    · simp only [if_true]; rw [neg_mul, five_pow_mul_zpow t j k]
+  rw [hp] at h; exact h
+
+end Ciphertext
 
 end Lattigo.Proofs.RotateSlots
